@@ -58,7 +58,9 @@ for f, props in sorted(file2props.items()):
 rnd.shuffle(cands)
 print(len(cands), "candidate mutants;", count, "to try", flush=True)
 def run_check(pid):
-    c = sh("./check %s quick" % pid, cwd=V, timeout=1200)
+    c = sh("./check %s quick" % pid, cwd=V, timeout=2400)
+    if c.returncode == 124 and c.stderr == "timeout":
+        return pid, "VIOLATION property=%s TIMEOUT no-failing-input-found" % pid
     vl = [l for l in c.stdout.split("\n") if l.startswith("VIOLATION")]
     return pid, (vl[0] if vl else "")
 rows = []
@@ -94,5 +96,5 @@ sh("git -C /repo checkout -- .")
 with open(V + "/seeded/MUTANTS.md", "a") as out:
     out.write("\n## run seed=%d count=%d filter=%r\n\n| file | line | original | mutant | result |\n|---|---|---|---|---|\n" % (seed, count, filt))
     for r in rows:
-        out.write("| %s | %d | `%s` | `%s` | %s |\n" % tuple(str(x).replace("|", "\\|") for x in r))
+        out.write("| %s | %s | `%s` | `%s` | %s |\n" % tuple(str(x).replace("|", "\\|") for x in r))
 print("survivors:", sum(1 for r in rows if r[4] == "SURVIVED"), "of", len(rows))
